@@ -128,6 +128,14 @@ def liveness(ctx):
         if os.path.exists(meta) and json.load(open(meta)).get("expected_detected"):
             breaking.append(os.path.join(d, "patch.diff"))
     benign = sorted(glob.glob(os.path.join(VERIF, "mutants", "benign", "*.patch")))
+    # behaviour-preserving refactorings written by independent agents: those touching a package or a contract this
+    # property's rules read
+    from .scope import CRATES_OF
+    mine = set(CRATES_OF.get(pid, []))
+    for pf in sorted(glob.glob(os.path.join(VERIF, "refactors", "*.patch"))):
+        touched = set(re.findall(r"^\+\+\+ b/(contracts|packages)/([^/]+)/", open(pf).read(), re.M))
+        if any(k == "packages" for k, _ in touched) or any(n.replace("-", "_") in mine for _, n in touched):
+            benign.append(pf)
     ctx.rule_texts["T.live"] = ("thorough: every breaking patch of the corpus (mutants/%s, seeded/%s* marked expected_detected) that still "
                                 "applies to the current tree must raise a VIOLATION of this property on a scratch copy; every benign patch "
                                 "must leave the verdict unchanged" % (pid, pid))
